@@ -212,30 +212,22 @@ Proof. repeat split; vm_compute; reflexivity. Qed.
 Section DedupFacts.
   Variable san : str -> str.
 
-  Lemma count_get_set_other : forall k k' v d, k' <> k -> count_get k' (count_set k v d) = count_get k' d.
-  Proof.
-    induction d as [|[k0 v0] d IH]; intros Hne; simpl.
-    - apply str_eqb_neq in Hne. rewrite Hne. reflexivity.
-    - destruct (str_eqb k k0) eqn:E; simpl.
-      + apply str_eqb_eq in E. subst k0. apply str_eqb_neq in Hne. rewrite Hne. reflexivity.
-      + destruct (str_eqb k' k0); [reflexivity | apply IH; exact Hne].
-  Qed.
-
-  Lemma dedup_go_nodup : forall ids seen,
+  Lemma dedup_go_nodup : forall ids used,
     nodupb (map san ids) = true ->
-    (forall i, In i ids -> count_get (san i) seen = None) ->
-    dedup_go san seen ids = ids.
+    (forall i, In i ids -> mem_str (san i) used = false) ->
+    dedup_go san used ids = ids.
   Proof.
-    induction ids as [|i r IH]; intros seen Hnd Hfresh; simpl; [reflexivity|].
+    induction ids as [|i r IH]; intros used Hnd Hfresh; simpl; [reflexivity|].
     simpl in Hnd. apply andb_true_iff in Hnd. destruct Hnd as [Hni Hnd].
     rewrite (Hfresh i (or_introl eq_refl)). f_equal. apply IH; [exact Hnd|].
-    intros j Hj. rewrite count_get_set_other; [apply Hfresh; right; exact Hj|].
-    intro E. apply negb_true_iff in Hni.
-    assert (X : mem_str (san i) (map san r) = true).
-    { apply mem_str_In. rewrite <- E. apply in_map. exact Hj. }
+    intros j Hj. simpl. rewrite (Hfresh j (or_intror Hj)), orb_false_r.
+    apply negb_true_iff in Hni. destruct (str_eqb (san j) (san i)) eqn:E; [|reflexivity].
+    apply str_eqb_eq in E.
+    assert (X : mem_str (san i) (map san r) = true) by (apply mem_str_In; rewrite <- E; apply in_map; exact Hj).
     congruence.
   Qed.
 
+  (* no collision => the pass changes nothing; in particular it is the identity on its own (collision-free) output *)
   Lemma dedup_ops_nodup : forall ids, nodupb (map san ids) = true -> dedup_ops san ids = ids.
   Proof. intros ids H. unfold dedup_ops. apply dedup_go_nodup; [exact H | intros; reflexivity]. Qed.
 
@@ -252,17 +244,17 @@ Section DedupFacts.
   Qed.
 
   Theorem modes_agree_partial : forall g found,
-    guard_modes san g found = true -> tree_force san g found = tree_temp san g.
+    guard_modes g found = true -> dedup_total san g = true -> tree_force san g found = tree_temp san g.
   Proof.
-    intros g found G. unfold guard_modes in G.
-    apply andb_true_iff in G. destruct G as [G Ge]. apply andb_true_iff in G. destruct G as [Gc Gd].
+    intros g found G Hd. unfold guard_modes in G.
+    apply andb_true_iff in G. destruct G as [Gc Gd].
     unfold tree_force, tree_temp. cbv zeta.
     assert (E : forall f', f' = (if core_inside_out g then [] else found) ->
                            exceptions_emit g f' = exceptions_emit g []).
     { intros f' ->. apply exceptions_emit_guard. exact Gd. }
     rewrite (E _ eq_refl).
     unfold guard_F09c in Gc. apply negb_true_iff in Gc. rewrite Gc.
-    unfold guard_F09e in Ge. rewrite !(dedup_ops_nodup _ Ge). reflexivity.
+    unfold dedup_total in Hd. rewrite (dedup_ops_nodup _ Hd). reflexivity.
   Qed.
 
   (* ---------- rerun ---------- *)
@@ -314,10 +306,10 @@ Section DedupFacts.
   Qed.
 
   Theorem rerun_partial : forall g found,
-    guard_modes san g found = true -> wf_layout san g = true ->
+    guard_modes g found = true -> dedup_total san g = true -> wf_layout san g = true ->
     run_noforce san g (tree_force san g found) = (ROk, tree_force san g found).
   Proof.
-    intros g found G Hwf. rewrite (modes_agree_partial _ _ G).
+    intros g found G Hd Hwf. rewrite (modes_agree_partial _ _ G Hd).
     unfold run_noforce, rerun_differing, under.
     rewrite !differing_self by (apply wf_filter; exact Hwf).
     destruct (path_eqb (g_core g) (g_out g)); reflexivity.
@@ -398,7 +390,7 @@ Definition g_F09e : gen_input :=
      g_shared := true; g_ops := [(s_default, s_foo); (s_default, s_foo); (s_default, s_foo_2)]; g_codes := [] |}.
 
 Lemma refuted_F09c :
-  guard_F09c g_F09c = false /\ guard_F09d g_F09c [] = true /\ guard_F09e idS g_F09c = true /\
+  guard_F09c g_F09c = false /\ guard_F09d g_F09c [] = true /\
   tree_force idS g_F09c [] <> tree_temp idS g_F09c /\
   fst (run_noforce idS g_F09c (tree_force idS g_F09c [])) = RDifferences.
 Proof. repeat split; try (vm_compute; reflexivity). vm_compute. discriminate. Qed.
@@ -406,18 +398,22 @@ Proof. repeat split; try (vm_compute; reflexivity). vm_compute. discriminate. Qe
 (* (in the implementation a core outside the package needs core_package, so F09d co-occurs with F09c; the
    model separates the two mechanisms: here core_given = false) *)
 Lemma refuted_F09d :
-  guard_F09c g_F09d = true /\ guard_F09d g_F09d found_F09d = false /\ guard_F09e idS g_F09d = true /\
+  guard_F09c g_F09d = true /\ guard_F09d g_F09d found_F09d = false /\
   tree_force idS g_F09d found_F09d <> tree_temp idS g_F09d /\
   fst (run_noforce idS g_F09d (tree_force idS g_F09d found_F09d)) = RDifferences.
 Proof. repeat split; try (vm_compute; reflexivity). vm_compute. discriminate. Qed.
 
-Lemma refuted_F09e :
-  guard_F09c g_F09e = true /\ guard_F09d g_F09e [] = true /\ guard_F09e idS g_F09e = false /\
-  tree_force idS g_F09e [] <> tree_temp idS g_F09e /\
-  fst (run_noforce idS g_F09e (tree_force idS g_F09e [])) = RDifferences.
-Proof. repeat split; try (vm_compute; reflexivity). vm_compute. discriminate. Qed.
+(* regression for the fixed F09e / F07a: ids foo, foo, foo_2 — the pass is collision-free and idempotent, the two
+   paths agree and the rerun succeeds *)
+Lemma regression_F09e :
+  dedup_ops idS [s_foo; s_foo; s_foo_2] = [s_foo; s_foo_2; s_foo_2 ++ [95;50]] /\
+  dedup_ops idS (dedup_ops idS [s_foo; s_foo; s_foo_2]) = dedup_ops idS [s_foo; s_foo; s_foo_2] /\
+  guard_modes g_F09e [] = true /\ dedup_total idS g_F09e = true /\
+  tree_force idS g_F09e [] = tree_temp idS g_F09e /\
+  fst (run_noforce idS g_F09e (tree_force idS g_F09e [])) = ROk.
+Proof. repeat split; vm_compute; reflexivity. Qed.
 
 Lemma guard_modes_nonvacuous :
-  guard_modes idS g_plain [(s_client, [400])] = true /\ wf_layout idS g_plain = true /\
+  guard_modes g_plain [(s_client, [400])] = true /\ dedup_total idS g_plain = true /\ wf_layout idS g_plain = true /\
   length (tree_force idS g_plain []) = 15%nat.
 Proof. repeat split; vm_compute; reflexivity. Qed.
